@@ -95,7 +95,9 @@ func (e *Env) parseType(txt string) types.Type {
 	switch txt {
 	case "int":
 		return tInt
-	case "real", "float64":
+	case "real":
+		return tMathReal
+	case "float64":
 		return tFloat
 	case "bool":
 		return tBool
@@ -249,15 +251,24 @@ func constTerm(c constant.Value, typ types.Type) *Term {
 		if typ != nil && sortOf(typ) == SReal {
 			return RealLitRat(new(big.Rat).SetInt(n))
 		}
+		if typ != nil && sortOf(typ) == SXReal {
+			return XFin(RealLitRat(new(big.Rat).SetInt(n)))
+		}
 		return IntLitBig(n)
 	case constant.Float:
 		r, ok := new(big.Rat).SetString(c.ExactString())
 		if !ok {
 			f, _ := constant.Float64Val(c)
+			if typ != nil && sortOf(typ) == SXReal {
+				return XFin(RealLit(f))
+			}
 			return RealLit(f)
 		}
 		if typ != nil && sortOf(typ) == SInt {
 			return IntLitBig(r.Num())
+		}
+		if typ != nil && sortOf(typ) == SXReal {
+			return XFin(RealLitRat(r))
 		}
 		return RealLitRat(r)
 	case constant.Bool:
@@ -409,6 +420,9 @@ func (e *Env) binary(x SBinary) SVal {
 	if typ == nil || isUntypedNil(typ) {
 		typ = b.Typ
 	}
+	if (a.T.Sort == SXReal || b.T.Sort == SXReal) && !((x.Op == "==" || x.Op == "!=") && a.T.Sort == b.T.Sort) {
+		efail("operator %s on a float64 value in the extended-real model: use fin(x), isfin(x), isnan(x), ispinf(x)", x.Op)
+	}
 	switch x.Op {
 	case "==", "!=":
 		var r *Term
@@ -549,7 +563,40 @@ func (e *Env) call(x SCall) SVal {
 		return SVal{T: Select(Select(e.cur.H(e.p, hd), m.T), coerce(k.T, sortOf(mt.Key()))), Typ: tBool}
 	case "real":
 		argn(1)
-		return SVal{T: ToReal(e.elab(x.Args[0]).T), Typ: tFloat}
+		return SVal{T: ToReal(e.elab(x.Args[0]).T), Typ: tMathReal}
+	case "fin":
+		// the real value of a float (identity in the exact-real float model)
+		argn(1)
+		v := e.elab(x.Args[0])
+		if v.T.Sort == SXReal {
+			return SVal{T: XVal(v.T), Typ: tMathReal}
+		}
+		return SVal{T: ToReal(v.T), Typ: tMathReal}
+	case "isfin", "isnan", "ispinf", "isninf", "isinf":
+		argn(1)
+		v := e.elab(x.Args[0])
+		if v.T.Sort != SXReal {
+			return SVal{T: BoolLit(x.Fn == "isfin"), Typ: tBool}
+		}
+		switch x.Fn {
+		case "isfin":
+			return SVal{T: XIsFin(v.T), Typ: tBool}
+		case "isnan":
+			return SVal{T: XIsNaN(v.T), Typ: tBool}
+		case "ispinf":
+			return SVal{T: XIsPInf(v.T), Typ: tBool}
+		case "isninf":
+			return SVal{T: XIsNInf(v.T), Typ: tBool}
+		}
+		return SVal{T: Or(XIsPInf(v.T), XIsNInf(v.T)), Typ: tBool}
+	case "tofloat":
+		// a real as a (finite) float of the current float model
+		argn(1)
+		v := e.elab(x.Args[0])
+		if floatSort == SXReal {
+			return SVal{T: XFin(v.T), Typ: tFloat}
+		}
+		return SVal{T: ToReal(v.T), Typ: tFloat}
 	case "floor":
 		argn(1)
 		return SVal{T: mk("to_int", SInt, ToReal(e.elab(x.Args[0]).T)), Typ: tInt}
@@ -688,11 +735,15 @@ func (e *Env) pureCall(pf *PureFunc, x SCall) SVal {
 }
 
 func (p *Program) pureSymbol(pf *PureFunc, pe *Env) *pureInfo {
-	if info, ok := p.pureDecl[pf.Name]; ok {
+	key := pf.Name
+	if floatSort == SXReal {
+		key += ".x"
+	}
+	if info, ok := p.pureDecl[key]; ok {
 		return info
 	}
-	info := &pureInfo{pf: pf, symbol: "pf." + pf.Name}
-	p.pureDecl[pf.Name] = info
+	info := &pureInfo{pf: pf, symbol: "pf." + key}
+	p.pureDecl[key] = info
 	for _, d := range pf.Params {
 		info.paramTyps = append(info.paramTyps, pe.parseType(d.Type))
 	}
